@@ -218,6 +218,26 @@ BIND(c18_ep_consts) {
 
 #endif /* WITH_EP */
 
+/* what the PUBLIC accessors advertise (the *_consts bindings read the context fields): order and cofactor */
+#ifdef WITH_EP
+BIND(c18_ep_accessors) {
+	bn_t t;
+	bn_null(t); bn_new(t);
+	ep_curve_get_ord(t); ret_bn_(c, t);             /* 0 */
+	ep_curve_get_cof(t); ret_bn_(c, t);             /* 1 */
+	bn_free(t);
+}
+#endif
+#if defined(WITH_EPX) && defined(WITH_EP)
+BIND(c18_ep2_accessors) {
+	bn_t t;
+	bn_null(t); bn_new(t);
+	ep2_curve_get_ord(t); ret_bn_(c, t);            /* 0 */
+	ep2_curve_get_cof(t); ret_bn_(c, t);            /* 1 */
+	bn_free(t);
+}
+#endif
+
 /* --------------------------------------------------------------------------------- curves over Fp2 (twists) */
 #if defined(WITH_EPX) && defined(WITH_EP)
 
